@@ -187,6 +187,15 @@ class MeshBuild:
                         a, b = int(m.group("a")), int(m.group("b"))
                         k = self.ncell_atom * a + b
                         return seq.first + seq.spacing * k
+                    if m and any(m.group("name") == nm for nm, _ in self.versions):
+                        # an entry of an EARLIER version of xf (the faces the base constructor built, re-used here):
+                        # that version's own description, entry a*ncell + b
+                        prev = self.seq_of(dict(self.versions)[m.group("name")])
+                        if prev.spacing is None:
+                            raise AnalysisError("face array derived from an earlier two-zone face array")
+                        a, b = int(m.group("a")), int(m.group("b"))
+                        k = self.ncell_atom * a + b
+                        return prev.first + prev.spacing * k
                     return None
                 return self.stn._map_atoms(x, fn)
             first = sub(NLin(0, 0))
